@@ -55,35 +55,29 @@ func c08(c *Ctx) {
 	copyDpts := ax.Func("(*lastValue).copyDpts")
 	checkTimes := func(fn *FuncInfo, typ string, tIs func(ast.Expr) bool) (nTime, nStart int, bad string) {
 		fStart := aggField(ax, typ, "start")
-		inspectNoLit(fn.Body(), func(nd ast.Node) bool {
-			as, ok := nd.(*ast.AssignStmt)
-			if !ok {
-				return true
+		// stores made directly or through a helper that is handed the values (judged on the arguments of that call)
+		for _, st := range ax.fieldStores(fn, fn.Body()) {
+			fv := st.Field
+			if fv.Pkg() == nil || fv.Pkg().Path() != metricdata || st.Helper == copyDpts {
+				continue
 			}
-			for i, l := range as.Lhs {
-				sel, ok := unparen(l).(*ast.SelectorExpr)
-				if !ok || len(as.Lhs) != len(as.Rhs) {
-					continue
+			if st.Helper != nil && !strings.Contains(namedTypeName(st.Owner), "DataPoint") {
+				// a helper filling something other than the point itself (exemplars carry their own measurement time)
+				continue
+			}
+			switch fv.Name() {
+			case "Time":
+				nTime++
+				if !st.Mapped || !tIs(st.Rhs) {
+					bad = "Time ← " + exprStr(st.Rhs) + " at " + ax.M.posStr(st.At.Pos())
 				}
-				fv, _ := fieldOf(info, sel)
-				if fv == nil || fv.Pkg() == nil || fv.Pkg().Path() != metricdata {
-					continue
-				}
-				switch fv.Name() {
-				case "Time":
-					nTime++
-					if !tIs(as.Rhs[i]) {
-						bad = "Time ← " + exprStr(as.Rhs[i]) + " at " + ax.M.posStr(as.Pos())
-					}
-				case "StartTime":
-					nStart++
-					if !isField(info, as.Rhs[i], fStart) {
-						bad = "StartTime ← " + exprStr(as.Rhs[i]) + " at " + ax.M.posStr(as.Pos())
-					}
+			case "StartTime":
+				nStart++
+				if !st.Mapped || !isField(info, st.Rhs, fStart) {
+					bad = "StartTime ← " + exprStr(st.Rhs) + " at " + ax.M.posStr(st.At.Pos())
 				}
 			}
-			return true
-		})
+		}
 		return
 	}
 	for _, a := range aggSpecs {
@@ -225,15 +219,24 @@ func c08(c *Ctx) {
 				if !ok || len(as.Lhs) != 1 || len(as.Rhs) != 1 {
 					return true
 				}
-				if fv, _ := fieldOf(info, as.Lhs[0]); fv != nil && fv.Name() == "Value" && isDelta(as.Rhs[0]) {
-					valueStored = true
-				}
+
 				if ie, ok := unparen(as.Lhs[0]).(*ast.IndexExpr); ok && sameVar(info, ie.Index, k) && isValN(as.Rhs[0]) {
 					newRep = objOf(info, ie.X)
 					repStored = true
 				}
 				return true
 			})
+			// every store into the point's Value in the loop is the difference (a later overwrite would win)
+			nVal, nDelta := 0, 0
+			for _, st := range ax.fieldStores(fn, rng.Body) {
+				if st.Field.Name() == "Value" && st.Field.Pkg() != nil && st.Field.Pkg().Path() == metricdata && strings.Contains(namedTypeName(st.Owner), "DataPoint") {
+					nVal++
+					if st.Mapped && isDelta(st.Rhs) {
+						nDelta++
+					}
+				}
+			}
+			valueStored = nVal > 0 && nVal == nDelta
 			replaced := false
 			inspectNoLit(fn.Body(), func(nd ast.Node) bool {
 				if r := assignRHS(nd, func(e ast.Expr) bool { return isField(info, e, fRep) }); r != nil && newRep != nil && sameVar(info, r, newRep) {
